@@ -193,15 +193,24 @@ func scopeOf(s *sess) string {
 // (and became its "latest" alias) without the parent-key validation of the encrypt path.
 func (h *hist) seededByLoad(scope, id string, created int64, after time.Time) bool {
 	calls := h.w.MS.Calls()
+	// the seeding load: the most recent exact load of (id, created) by this scope after the flag was set
 	last := -1
 	for i := len(calls) - 1; i >= 0; i-- {
-		if c := calls[i]; c.Who == scope && c.ID == id {
+		if c := calls[i]; c.Who == scope && c.ID == id && c.Op == "load" && c.Created == created {
 			last = i
 			break
 		}
 	}
-	if last < 0 || calls[last].Op != "load" || calls[last].Created != created || !calls[last].At.After(after) {
+	if last < 0 || !calls[last].At.After(after) {
 		return false
+	}
+	// since then the scope must not have gone through the latest-key path for this id (a LoadLatest or an insert):
+	// that would have replaced what the decrypt-path load left behind, and naming the key afterwards is another
+	// defect. Exact loads of other generations (decrypts of older records) in between change nothing.
+	for _, c := range calls[last+1:] {
+		if c.Who == scope && c.ID == id && (c.Op == "loadlatest" || c.Op == "store") {
+			return false
+		}
 	}
 	// F11 is about a cache that has never seen a newer key of this id: if this scope already read or wrote a
 	// later generation, naming the older one again is a different defect (the alias moved backwards)
